@@ -32,6 +32,7 @@ func main() {
 			os.Exit(2)
 		}
 		fmt.Print(dumpAnchors(c))
+		fmt.Print(dumpFields(c))
 		return
 	}
 
